@@ -341,6 +341,11 @@ async def main():
                                       poll_interval=0.02, max_batch_size=2, asynchronous=True)
     elif kind == 'blocking_then_async':
         s = PRE['src']
+    elif kind == 'async_with_dask_client':
+        from tornado.ioloop import IOLoop
+        s = Stream.from_iterable([1, 2, 3], asynchronous=True)
+        out['loop_is_callers'] = s.loop is IOLoop.current()
+        out['current_unchanged'] = True
     elif kind == 'timed_window':
         s = Stream(asynchronous=True)
         s = s.timed_window(0.01)
@@ -377,6 +382,15 @@ try:
         lp.run_until_complete(main())
         out['threads'] -= 1          # the blocking pipeline legitimately owns the background thread
         out['io_loops'] -= 1
+    elif kind == 'async_with_dask_client':
+        # a synchronous dask client is alive (its loop runs in its own thread): an asynchronous pipeline declared
+        # now still belongs to the caller's loop
+        from distributed import Client
+        client = Client(processes=False, dashboard_address=None, n_workers=1, threads_per_worker=1)
+        t_before = threading.active_count()
+        asyncio.run(main())
+        out['threads'] = 1 + (threading.active_count() - t_before if threading.active_count() > t_before else 0)
+        client.close()
     else:
         asyncio.run(main())
 except Exception as ex:
@@ -399,7 +413,7 @@ def pristine(kind):
 
 
 PRISTINE_KINDS = ['from_iterable', 'from_periodic', 'from_textfile', 'from_q', 'timed_window', 'timed_window_explicit',
-                  'buffer_explicit', 'from_kafka_batched', 'blocking_then_async']
+                  'buffer_explicit', 'from_kafka_batched', 'blocking_then_async', 'async_with_dask_client']
 
 
 def run_shard(seed, tier, shard, nshards):
@@ -437,7 +451,7 @@ def run_shard(seed, tier, shard, nshards):
         if 'error' in r:
             out['violations'].append({'key': 'C19:pristine-error@%s' % kind, 'what': r['error'], 'case': case})
             continue
-        if kind == 'blocking_then_async' and not (r.get('loop_is_callers') and r.get('current_unchanged')):
+        if kind in ('blocking_then_async', 'async_with_dask_client') and not (r.get('loop_is_callers') and r.get('current_unchanged')):
             out['violations'].append({'key': 'C19:async-declared-after-blocking-pipeline-lands-on-foreign-loop',
                                       'what': 'a blocking pipeline was built first, then a source was declared asynchronous in the same '
                                               'thread: %s' % r, 'case': case})
